@@ -5,7 +5,10 @@
 //!   tx      C10        nested storage transactions vs. a stack-of-maps model
 //!   merkle  C13        merklized block table vs. from-scratch binary Merkle roots
 
+mod height;
 mod kv;
+mod merkle;
+mod txmode;
 
 use simkit::{
     Ctx,
@@ -20,7 +23,7 @@ impl World for Storage {
         "w2_storage"
     }
     fn properties(&self) -> Vec<&'static str> {
-        vec!["C11", "C12"]
+        vec!["C09", "C10", "C11", "C12", "C13"]
     }
     fn real_components(&self) -> Vec<&'static str> {
         vec![
@@ -28,6 +31,9 @@ impl World for Storage {
             "fuel_core::state::rocks_db::RocksDb (real RocksDB in a temp dir)",
             "fuel_core::state::historical_rocksdb::HistoricalRocksDB + ViewAtHeight (all rewind policies)",
             "fuel_core_storage::iter::{iterator, keys_iterator}, changes iterator",
+            "fuel_core::database::Database<OnChain|OffChain|Relayer|GasPriceDatabase|CompressionDatabase> (commit_changes_with_height_update, rollback_last_block, metadata)",
+            "fuel_core_storage::transactional::{StorageTransaction, InMemoryTransaction}, StructuredStorage, kv_store default methods",
+            "fuel_core_storage::blueprint::merklized::Merklized on the FuelBlocks table (+ fuel-merkle binary tree)",
         ]
     }
     fn stubs(&self) -> Vec<&'static str> {
@@ -37,6 +43,12 @@ impl World for Storage {
     }
     fn default_runs(&self, prop: &str, tier: Tier) -> u64 {
         match (prop, tier) {
+            ("C10", Tier::Quick) => 40_000,
+            ("C10", Tier::Thorough) => 4_000_000,
+            ("C13", Tier::Quick) => 8_000,
+            ("C13", Tier::Thorough) => 600_000,
+            ("C09", Tier::Quick) => 3_000,
+            ("C09", Tier::Thorough) => 200_000,
             (_, Tier::Quick) => 400,
             (_, Tier::Thorough) => 20_000,
         }
@@ -55,12 +67,26 @@ impl World for Storage {
                 "crash points are between two calls into the storage seam; RocksDB WriteBatch atomicity and WAL are trusted".into(),
                 "commits without a height only happen before the first height (C09 enforces this for node databases)".into(),
             ],
+            "C09" => vec![
+                "a failed storage commit is treated as fatal by the node: after an injected lost-ack the harness reopens the database and accepts either the old or the durable height".into(),
+                "the first committed height of a database is never rolled back".into(),
+            ],
+            "C10" => vec![
+                "after an injected read error inside replace/take the key's pending state is unspecified by the property (tainted until overwritten)".into(),
+                "after a rejected fail-on-conflict merge the run ends (commit consumes the transaction)".into(),
+            ],
+            "C13" => vec![
+                "every table operation runs in its own storage transaction that is dropped on error (as the node does)".into(),
+                "reference roots: independent RFC-6962 implementation in the harness (sha2)".into(),
+            ],
             _ => vec![],
         }
     }
     fn run(&self, ctx: &mut Ctx) {
         match ctx.prop.as_str() {
-            "C11" | "C12" => kv::run(ctx),
+            "C09" => height::run(ctx),
+            "C10" => txmode::run(ctx),
+            "C13" => merkle::run(ctx),
             _ => kv::run(ctx),
         }
     }
